@@ -39,7 +39,7 @@ def main(tier, args):
                    "dedup (state_ of every node + per-node hook automaton, also of the optional-subtree-removed programs), every history "
                    "finished by cleanup()+delete and by delete only, plus the run_in_frontend/run_in_backend call order; dedup "
                    "cross-checked by plain enumeration of all sequences of length<=%d for trees <=%d nodes; oracle on the probe hook log: pre-order "
-                   "init/start, exact reverse stop/cleanup per root call, per-module hook automaton, balance after cleanup+destroy, "
+                   "init/start per root call, stop/cleanup LIFO w.r.t. the start/init hooks they undo (exact reverse), per-module hook automaton, balance after cleanup+destroy, "
                    "optional failing subtree leaves outside hooks identical to the program without it; ASan/UBSan" % (nmax, depth, xd, xn),
               assumptions=["a module's hook result is fixed per program (ok / init hook fails / start hook fails), not per call",
                            "balance is judged only for histories ending with an explicit cleanup() before destruction (DESIGN 1.7); "
